@@ -120,6 +120,100 @@ def pair_picks(k, n):
     return [(0, 1), (0, n - 1), (n - 2, n - 1)]
 
 
+# ---- streams with rich payloads: the retention law speaks about stream POSITIONS, whatever the observation carries.
+# (k, snapshot lengths, runs quick, runs thorough); the payload mode cycles over the configurations
+PAYLOAD_GRID = [
+    (5, [6, 10, 20, 40], 6000, 60000),
+    (2, [3, 5, 12, 30], 12000, 120000),
+    (1, [2, 4, 9, 21], 20000, 200000),
+    (3, [4, 7, 16, 36], 9000, 90000),
+    (8, [9, 14, 33], 5000, 50000),
+    (4, [5, 11, 25], 8000, 80000),
+]
+PAYLOAD_MODES = ["missing-feature-values", "sequence-targets", "missing-feature-values+sequence-targets"]
+NO_Y = object()          # "update(x)" without a target
+
+
+def payload_pattern(k, snaps, mode, prnd):
+    """Per stream position: (extra feature items, target or NO_Y, is_special).  'special' positions carry a missing feature
+    value (NaN of several float types / None) and / or an EMPTY sequence target (tuple, list, str, array: a multi-label observation
+    without an active label); the others carry finite values and non-empty sequence / scalar / absent targets.  Roughly a third of the
+    positions is special, at least one of them inside the fill phase and one right after it."""
+    import numpy as np
+    nmax = max(snaps)
+    lo_hi = (k, min(nmax, max(snaps[1], k + 2)))
+    for _try in range(200):
+        special = [prnd.random() < 0.35 for _ in range(nmax)]
+        late = special[lo_hi[0]:lo_hi[1]]
+        if any(special[:k]) and any(late) and not all(late):
+            break
+    else:
+        special = [i % 3 == 0 for i in range(nmax)]
+    missing = [float("nan"), None, np.nan, np.float64("nan"), np.float32("nan"), math.nan * 1.0]
+    finite = [0.5, 3, -1.25, "red", np.float64(2.0), True, 0, 0.0]
+    empty_y = [(), [], "", np.array([]), (), np.array([], dtype=int), []]
+    full_y = [("a",), ["x", "y"], "ab", np.array([1, 0]), 3, NO_Y, ("a", "b", "c"), 0.5, [0], None, "n", ((),), [[]]]
+    pat = []
+    for i in range(nmax):
+        sp = special[i]
+        extra = {}
+        if mode != "sequence-targets":
+            names = ["a", "b", "c"][: 1 + prnd.randrange(3)]
+            for nm in names:
+                extra[nm] = prnd.choice(finite)
+            if sp:
+                for nm in prnd.sample(names, 1 + prnd.randrange(len(names))):
+                    extra[nm] = prnd.choice(missing)
+        y = NO_Y
+        if mode != "missing-feature-values":
+            y = prnd.choice(empty_y) if sp else prnd.choice(full_y)
+        pat.append((extra, y, sp))
+    return pat
+
+
+def sample_payload(make, k, snaps, runs, pat, run):
+    """Inclusion counts per (snapshot, position); observations are identified by their POSITION / object identity, never by value
+    equality (NaN != NaN).  Returns (incl, structural findings)."""
+    incl = {n: [0] * n for n in snaps}
+    nmax = max(snaps)
+    snapset = set(snaps)
+    bad = []
+    for r_ in range(runs):
+        st = make()
+        upd = st.update if r_ % 2 else None
+        handed = []
+        every = r_ % 4 == 0
+        for i in range(nmax):
+            extra, y, _sp = pat[i]
+            obs = {"t": i}
+            obs.update(extra)
+            if r_ % 3 == 2:                       # the position key comes last in some executions
+                obs = dict(extra)
+                obs["t"] = i
+            handed.append(obs)
+            f = upd or st.update
+            if y is NO_Y:
+                f(obs)
+            elif r_ % 5 == 1:
+                f(x=obs, y=y)
+            else:
+                f(obs, y)
+            n = i + 1
+            if n >= k and (every or n in snapset):
+                xs = st.get_data()[0]
+                ts = [x["t"] for x in xs]
+                if (len(xs) != k or len(set(ts)) != k or any(not (0 <= t < n) or handed[t] is not x for t, x in zip(ts, xs))) and len(bad) < 3:
+                    bad.append(f"k={k}: after {n} observations get_data() holds {len(xs)} item(s) from positions {sorted(ts)[:12]} "
+                               f"(expected {k} distinct observations of the first {n}); payload of the last observation: "
+                               f"{ {kk: repr(v) for kk, v in obs.items()} }, target {'absent' if y is NO_Y else repr(y)}")
+                if n in snapset:
+                    c = incl[n]
+                    for t in ts:
+                        if 0 <= t < n:
+                            c[t] += 1
+    return incl, bad
+
+
 def main(run):
     from ixai.storage import UniformReservoirStorage
     run.rule = ("R independent UniformReservoirStorage instances per (k, snapshot grid), every third configuration with other library objects (TreeStorage with a seed, other storages, trackers) constructed and used mid-stream and with a second reservoir fed the very same dict objects; exact two-sided binomial cell "
@@ -192,6 +286,53 @@ def main(run):
             n0 = snaps[1]
             run.sample({"k": k, "snapshot_n": n0, "runs": runs, "expected_inclusion": k / n0,
                         "observed_inclusion_per_arrival": {str(t + 1): incl[n0][t] / runs for t in picks(k, n0)}})
+    # ---- rich payloads: observations with missing feature values (NaN of several float types, None) and targets that are
+    # sequences (tuples / lists / strings / arrays, EMPTY ones included, e.g. multi-label targets), with and without stored targets.
+    # Every stream position must be retained with probability k/n whatever it carries; the stored items are k distinct
+    # observations (object identity) of the stream so far.
+    for jj, (k, snaps, rq, rt) in enumerate(PAYLOAD_GRID):
+        if jj % nsh != sh % nsh:
+            continue
+        runs = rt if thorough else rq
+        mode = PAYLOAD_MODES[(jj + run.seed) % 3]
+        prnd = random.Random(run.seed * 1009 + jj * 17 + 3)
+        pat = payload_pattern(k, snaps, mode, prnd)
+        store_y = (jj + run.seed // 3) % 2 == 1
+        random.seed(run.shard_seed * 15485863 + jj)
+        pct = CellTests(sum(snaps), eps=EPS / (len(GRID) + 4) / len(PAYLOAD_GRID))
+        incl, bad = sample_payload(lambda: UniformReservoirStorage(size=k, store_targets=store_y), k, snaps, runs, pat, run)
+        run.ok(runs, kind=f"payload:{mode}")
+        run.see("payload-mode", mode)
+        run.see("payload-store-targets", store_y)
+        nmax = max(snaps)
+        run.count("payload-observations-with-missing-feature-value", runs * sum(1 for e, y, sp in pat if sp and mode != "sequence-targets"))
+        run.count("payload-observations-with-empty-sequence-target", runs * sum(1 for e, y, sp in pat if sp and mode != "missing-feature-values"))
+        run.count("payload-observations-with-nonempty-sequence-target",
+                  runs * sum(1 for e, y, sp in pat if y is not NO_Y and hasattr(y, "__len__") and len(y) > 0))
+        run.count("payload-observations-plain", runs * sum(1 for e, y, sp in pat if not sp))
+        pf = []
+        for n in snaps:
+            for t in range(n):
+                e_, y_, sp_ = pat[t]
+                tag = ""
+                if sp_:
+                    tag = " carrying " + " and ".join(w for w, on in (("a missing feature value", mode != "sequence-targets"),
+                                                                      ("an empty sequence target", mode != "missing-feature-values")) if on)
+                elif t > 0 and pat[t - 1][2]:
+                    tag = " (arrives right after a special observation)"
+                r = pct.test(incl[n][t], runs, k / n, f"k={k} n={n} [{mode}] inclusion of arrival #{t + 1}{tag}")
+                if r:
+                    pf.append(r)
+                if incl[n][t]:
+                    run.nontriv(("payload-incl", k, n, t))
+        run.notes[f"payload_min_detectable_deviation k={k}"] = pct.max_mdd
+        run.count("cell-tests", pct.done)
+        run.notes[f"min_p_value payload k={k}"] = pct.min_p
+        for msg in bad[:2]:
+            run.violation("stored-subset", msg, {"k": k, "mode": mode, "store_targets": store_y, "seed": run.shard_seed * 15485863 + jj})
+        for msg in pf[:4]:
+            run.violation("inclusion-law", msg + f" over {runs} runs", {"k": k, "snapshots": snaps, "runs": runs, "mode": mode,
+                                                                        "store_targets": store_y, "seed": run.shard_seed * 15485863 + jj})
     # ---- thin slices of the size axis: EVERY reservoir size 1..24 with a coarse inclusion test (first, (k+1)-th, middle, last arrival)
     ks = [k for k in range(1, 25) if k % nsh == sh]
     runs = 1500 if not thorough else 20000
